@@ -4,12 +4,14 @@ from ..core.model import Program
 from ..core.report import CheckContext
 from ..core.resolve import Resolver
 from ..rules import bookkeeping as bk
-from .common import run_control, generic_rules
+from ..rules import inval as _inval_rl
+from .common import run_control, generic_rules, anchor_funcs
 
 
 def analyse(ctx: CheckContext, p: Program):
     r = Resolver(p)
     ctx.guard(generic_rules, ctx, p, r, "C02")
+    ctx.guard(_inval_rl.check_round_last, ctx, p, r, anchor_funcs(p, "C02"))
     fs = [f for f in p.all_funcs if f.module.name in ("OpenPinch.analysis.utility_targeting",)]
     ctx.guard(bk.check_wrap, ctx, p, r, fs)
     ctx.guard(bk.check_gen_use_matching, ctx, p, r)
